@@ -35,7 +35,7 @@ def include_cases(ctx, recs, failures):
 
 
 def check(ctx):
-    return SC.run(ctx, "C03", ["Oq3.Props.C03", "Oq3.Props.C03Total"], [OA], SC.default_programs(ctx), post=include_cases, rule=
+    return SC.run(ctx, "C03", ["Oq3.Props.C03", "Oq3.Props.C03Total", "Oq3.Props.C03Total2"], [OA], SC.default_programs(ctx), post=include_cases, rule=
                   "generated programs (vf/gen_prog.py: every statement arm of the pass, every scalar type x width x const x initializer form, small name pool, wrong arities/kinds, low-probability panic-prone constructs) through parse_source_string; oracle: no panic, depth = 1 at the end; non-trivial = analysed program on which every oracle clause held",
                   trusted=["thread stack depth is outside the model (generated nesting is bounded)"],
                   assumptions=["totality is proved on the syntactic fragment suppStmt only (sema_total_partial); outside it panic-freedom is explored by this run, and the panic sites are proved to be a fixed finite set (panic_sites)"])
